@@ -42,7 +42,7 @@ func init() {
 		ID:    "C20",
 		Level: "exploration",
 		Rule: "cases = histories from an operation grammar (reads, writes, streamed writes, pings, CloseRead, NetConn with timers, abandoned half-read readers and unclosed writers, peer pings, cancelled reads) on either role, ended in 25 ways (Close / CloseNow / invalid Close arguments / repeated and concurrent closers against a slow peer / peer close, protocol error, context expiry, transport EOF or reset followed by Close or CloseNow / NetConn policy close / CloseNow while the CloseRead goroutine is stuck in a transport write that lingers after the close, with and without an error from the transport's Close). " +
-			"Oracle: once the last Close/CloseNow has returned and the harness has joined its own goroutines, the goroutine profile must contain no goroutine with a frame in, or created by, nhooyr.io/websocket (300 ms grace for goroutines that are unwinding); histories run one at a time per process so a leak is attributed to its history, and the process-wide goroutine count is compared before and after each batch. distinct key = (role, ending, set of operation kinds)",
+			"Oracle: once the last Close/CloseNow has returned and the harness has joined its own goroutines, the goroutine profile must contain no goroutine with a frame in, or created by, nhooyr.io/websocket (300 ms grace for goroutines that are unwinding); histories run one at a time per process so a leak is attributed to its history; in half of the histories the long-lived context handed to CloseRead / NetConn is a Context type of the application's own, and no context-package watcher goroutine for a child derived from it may survive the close. distinct key = (role, ending, set of operation kinds)",
 		Gen:         c20Gen,
 		Race:        func(t string) bool { return t == "thorough" },
 		CaseTimeout: 120 * time.Second,
@@ -138,6 +138,14 @@ func c20Run(r *fw.R, d c20Desc) {
 		r.Count("library_goroutines_seen_while_open", int64(n))
 	}
 	base := context.Background()
+	// What the library is handed as a long-lived parent context (CloseRead, NetConn) is, in half of the histories,
+	// a Context type of the application's own: the context package then runs a watcher goroutine for every
+	// child the LIBRARY derives from it, until that child is cancelled. The harness derives nothing from it.
+	libBase := context.Context(base)
+	foreign := d.Seed%2 == 0
+	if foreign {
+		libBase = appContext{Context: base, done: make(chan struct{})}
+	}
 	var wg sync.WaitGroup // harness goroutines that sit inside library calls
 	rng := fw.NewRand(d.Seed)
 	closeRead := false
@@ -185,12 +193,25 @@ func c20Run(r *fw.R, d c20Desc) {
 			}
 		case "closeread":
 			if nc == nil {
-				c.CloseRead(base)
+				if rng.Bool() {
+					c.CloseRead(libBase)
+				} else {
+					// several goroutines make the (idempotent) call at the same instant
+					var cw sync.WaitGroup
+					start := make(chan struct{})
+					for g := 0; g < 4; g++ {
+						cw.Add(1)
+						go func() { defer cw.Done(); <-start; c.CloseRead(libBase) }()
+					}
+					close(start)
+					cw.Wait()
+					r.Count("simultaneous_closeread_calls", 4)
+				}
 				closeRead = true
 			}
 		case "netconn-timers":
 			if !closeRead && nc == nil {
-				n := websocket.NetConn(base, c, websocket.MessageBinary)
+				n := websocket.NetConn(libBase, c, websocket.MessageBinary)
 				n.SetDeadline(time.Now().Add(time.Hour))
 				n.SetReadDeadline(time.Now().Add(30 * time.Minute))
 				if !writerAbandoned {
@@ -334,7 +355,7 @@ func c20Run(r *fw.R, d c20Desc) {
 		r.Count("profiles_inspected", 1)
 	case "netconn-wrong-type+ncClose-slow-peer":
 		if nc == nil && !closeRead {
-			n := websocket.NetConn(base, c, websocket.MessageBinary)
+			n := websocket.NetConn(libBase, c, websocket.MessageBinary)
 			nc = n
 		}
 		if nc != nil {
@@ -377,7 +398,7 @@ func c20Run(r *fw.R, d c20Desc) {
 		c.CloseNow()
 	case "closeread-data+CloseNow":
 		if !closeRead && nc == nil {
-			c.CloseRead(base)
+			c.CloseRead(libBase)
 		}
 		peer.Send(wire.Data(wire.OpText, true, []byte("unexpected")))
 		time.Sleep(3 * time.Millisecond)
@@ -413,6 +434,31 @@ func c20Run(r *fw.R, d c20Desc) {
 	peerEnd.Close()
 	r.Count("histories", 1)
 	// ---- the oracle
+	if nc != nil {
+		// an application closes the net.Conn it asked for as well (whatever ended the connection): the adapter's
+		// own contexts live until then
+		nc.Close()
+	}
+	if foreign {
+		// watcher goroutines of contexts derived from the application's context: only the library derived any
+		var watchers []string
+		for t0 := time.Now(); ; {
+			watchers = watchers[:0]
+			for _, g := range allGoroutines() {
+				if strings.Contains(g, "created by context.") && strings.Contains(g, "propagateCancel") {
+					watchers = append(watchers, g)
+				}
+			}
+			if len(watchers) == 0 || time.Since(t0) > 300*time.Millisecond {
+				break
+			}
+			time.Sleep(5 * time.Millisecond)
+		}
+		r.Count("histories_with_an_application_context_type", 1)
+		if len(watchers) > 0 {
+			r.Violate("C20/context-watcher-goroutine-left/"+d.Ending, fmt.Sprintf("%s ops=%v ending=%s: %d goroutine(s) watching a context that the library derived from the caller's (non context-package) Context are still running 300 ms after the closer returned: the derived context was never cancelled", d.Role, d.Ops, d.Ending, len(watchers)), strings.Join(watchers, "\n\n"))
+		}
+	}
 	leaked := waitNoLibGoroutines(300 * time.Millisecond)
 	r.Count("profiles_inspected", 1)
 	var kinds []string
@@ -517,4 +563,34 @@ func repoDir() string {
 		return d
 	}
 	return "/repo"
+}
+
+// appContext is a Context implementation that does not come from the context package (its Done channel is its own).
+type appContext struct {
+	context.Context
+	done chan struct{}
+}
+
+func (a appContext) Done() <-chan struct{} { return a.done }
+func (a appContext) Err() error {
+	select {
+	case <-a.done:
+		return context.Canceled
+	default:
+		return nil
+	}
+}
+
+// allGoroutines returns the stack of every goroutine of the process.
+func allGoroutines() []string {
+	buf := make([]byte, 1<<20)
+	for {
+		n := runtime.Stack(buf, true)
+		if n < len(buf) {
+			buf = buf[:n]
+			break
+		}
+		buf = make([]byte, 2*len(buf))
+	}
+	return strings.Split(string(buf), "\n\n")
 }
